@@ -15,7 +15,7 @@ contract(M + "_get_bounds", props=["C02", "C15"],
          ensures=["result[0] <= bden(P)", "bden(P) <= result[1]",
                   "implies(allconst(P), True)"])
 
-contract(M + "_special_constraints_eq_zero", props=["C02", "C03", "C06", "C08"],
+contract(M + "_special_constraints_eq_zero", props=["C02", "C03", "C06", "C08", "C14"],
          instances=[{"pcbo": "model:PCBO", "P": "model:PUBO", "lam": "real"}],
          requires=["wf(pcbo)", "wf(P)", "lam > 0", "distinct(pcbo, P)"],
          returns="bool", modifies=["pcbo"],
@@ -39,7 +39,7 @@ def _afg(obj, arg, cnt=None):
         obj, arg, obj, obj)
 
 
-contract(M + "PCBO.add_constraint_eq_zero", props=["C02", "C06", "C16", "C19"], taint=["lam"],
+contract(M + "PCBO.add_constraint_eq_zero", props=["C02", "C06", "C14", "C16", "C19"], taint=["lam"],
          instances=[{"self": "model:PCBO", "P": p, "lam": "real", "bounds": b, "suppress_warnings": "bool"}
                     for p in PK for b in BND],
          requires=["wf(self)", "lam > 0", "isint(bden(P))", "encloses(bounds, bden(P))",
@@ -141,7 +141,7 @@ contract("qubovert.utils._binary_helpers:num_bits", props=["C02"], trusted=True,
          note="L8: 2^bit_length(ceil v) - 1 >= v, resp. ceil(v) >= v; int.bit_length / math.ceil are outside qvc")
 
 _N = "(self._ancilla - old(self._ancilla))"
-contract(M + "_special_constraints_le_zero", props=["C02", "C03", "C08"],
+contract(M + "_special_constraints_le_zero", props=["C02", "C03", "C08", "C14"],
          instances=[{"pcbo": "model:PCBO", "P": "model:PUBO", "lam": "real", "log_trick": "bool", "bounds": "tuple:real,real"}],
          requires=["wf(pcbo)", "wf(P)", "lam > 0", "distinct(pcbo, P)", "isint(bden(P))", "encloses(bounds, bden(P))",
                    "int_at_origin(P)"],
@@ -165,7 +165,7 @@ contract(M + "_special_constraints_le_zero", props=["C02", "C03", "C08"],
 
 
 def _ineq(name, holds, loops=None):
-    contract(M + "PCBO." + name, props=["C02", "C16", "C19"], taint=["lam"],
+    contract(M + "PCBO." + name, props=["C02", "C14", "C16", "C19"], taint=["lam"],
              instances=[{"self": "model:PCBO", "P": p, "lam": "real", "log_trick": "bool", "bounds": b,
                          "suppress_warnings": "bool"}
                         for p in ("termdict", "model:PUBO", "model:PCBO") for b in ("none", "tuple:real,real", "tuple:none,real")],
@@ -209,7 +209,7 @@ _ineq2("add_constraint_gt_zero", "bden(P) > 0", "bden(P) - 1")
 # clause (2) differs per branch (it is inherited from > / < or uses the sign ancilla) and stays bounded.
 _SGN = "(slackval(pre(self._ancilla), visited, log_trick) if xv(anclabel(pre(self._ancilla) - 1)) == 1 else " \
        "-slackval(pre(self._ancilla), visited, log_trick))"
-contract(M + "PCBO.add_constraint_ne_zero", props=["C02", "C16", "C19"], taint=["lam"],
+contract(M + "PCBO.add_constraint_ne_zero", props=["C02", "C14", "C16", "C19"], taint=["lam"],
          instances=[{"self": "model:PCBO", "P": p, "lam": "real", "log_trick": "bool", "bounds": b,
                      "suppress_warnings": "bool"}
                     for p in ("termdict", "model:PUBO", "model:PCBO") for b in ("none", "tuple:real,real", "tuple:none,real")],
